@@ -53,13 +53,13 @@ GEN_ASSUME = ["transports honour their context (a blocked Read/Write returns onc
 # ---------------------------------------------------------------- C01
 P["C01"] = {
  "title": "unary call returns exactly the handler's reply to exactly the caller's request",
- "bounds": "real ClientConn + real Server.Serve over the shipped channel transport (by reference), through a Demux keyed by source, through a Proxy, and over a serialising (Marshal/Unmarshal) transport; N concurrent callers (1..2) with symbolic 32-bit payloads incl. 0 (empty body); all interleavings of callers, mux read loop, server read loop, 8 workers (symmetry-reduced), writer",
+ "bounds": "real ClientConn + real Server.Serve over the shipped channel transport (by reference), through a Demux keyed by source, through a Proxy, and over a serialising (Marshal/Unmarshal) transport; one call whose request write is stuck in a congested link while another call runs to completion (H_C05_blocked_write); N concurrent callers (1..2) with symbolic 32-bit payloads incl. 0 (empty body); all interleavings of callers, mux read loop, server read loop, 8 workers (symmetry-reduced), writer",
  "assumptions": GEN_ASSUME + ["codec model for testproto.Msg (injective; zero value <-> empty body); payload sizes beyond the 4-byte value are outside"],
  "quick": [job("H_C01_direct", conc=True, reach=["quiescent"], callers=1), job("H_C01_direct", conc=True, reach=["quiescent"], callers=2),
            job("H_C01_topo", conc=True, reach=["quiescent"], topo=1, callers=1), job("H_C01_topo", conc=True, reach=["quiescent"], topo=2, callers=1), job("H_C01_topo", conc=True, reach=["quiescent"], topo=3, callers=1),
            job("H_C01_topo", conc=True, reach=["quiescent"], topo=3, callers=2), job("H_C01_topo", conc=True, reach=["quiescent"], topo=1, callers=2),
-           dict(job("H_C01_direct", conc=True, callers=2), race=True)],
- "thorough": [job("H_C01_direct", conc=True, reach=["quiescent"], callers=1), job("H_C01_direct", conc=True, reach=["quiescent"], callers=2),
+           dict(job("H_C01_direct", conc=True, callers=2), race=True), job("H_C05_blocked_write", conc=True, reach=["checked"])],
+ "thorough": [job("H_C05_blocked_write", conc=True, reach=["checked"]), job("H_C01_direct", conc=True, reach=["quiescent"], callers=1), job("H_C01_direct", conc=True, reach=["quiescent"], callers=2),
               job("H_C01_direct", conc=True, reach=["quiescent"], callers=2, tcap=1),
               job("H_C01_topo", conc=True, reach=["quiescent"], topo=1, callers=2), job("H_C01_topo", conc=True, reach=["quiescent"], topo=2, callers=2), job("H_C01_topo", conc=True, reach=["quiescent"], topo=3, callers=2),
               dict(job("H_C01_direct", conc=True, callers=2), race=True)],
@@ -79,7 +79,7 @@ P["C02"] = {
 }
 
 # ---------------------------------------------------------------- C03
-c03q = [job("H_C03_unary", conc=True, ek=ek, nd=2) for ek in range(0, 10)] + \
+c03q = [job("H_C03_unary", conc=True, ek=ek, nd=2) for ek in range(0, 10)] + [job("H_C03_unary", conc=True, reach=["ok"], ek=0, nd=0, zero=1)] + \
        [job("H_C03_stream", conc=True, ek=ek, nd=1, pos=pos, sending=0, tcap=2) for ek in (8, 9) for pos in (0, 1)] + \
        [job("H_C03_stream", conc=True, ek=ek, nd=1, pos=pos, sending=0, tcap=2) for ek in (0, 1, 3, 4, 6) for pos in (0, 1)] + \
        [job("H_C03_stream", conc=True, ek=1, nd=1, pos=0, sending=1, tcap=2)] + \
@@ -99,7 +99,7 @@ P["C04"] = {
  "assumptions": ["encoding/base64 executed from its own SSA (tables as SMT arrays)", "keys are ASCII letters and '-' (gRPC key alphabet)"],
  "quick": [job("H_C04_roundtrip", reach=["checked"], K=2, V=2, vlen=2), job("H_C04_roundtrip", reach=["checked"], K=1, V=1, vlen=3, allbin=1), job("H_C04_join", reach=["checked"]),
            job("H_C04_request_md", reach=["checked"], deadline=0), job("H_C04_request_md", reach=["checked"], deadline=1)] +
-          [job("H_C04_stream_md", conc=True, reach=["checked"], mode=m, herr=h) for m in (0, 1, 2) for h in (0, 1)] + [c08e(0, 0, 1), c08e(1, 0, 1)],
+          [job("H_C04_stream_md", conc=True, reach=["checked"], mode=m, herr=h) for m in (0, 1, 2) for h in (0, 1)] + [job("H_C04_stream_md", conc=True, reach=["checked"], mode=m, herr=0) for m in (3, 4)] + [c08e(0, 0, 1), c08e(1, 0, 1)],
  "thorough": [c08e(0, 0, 1), c08e(1, 0, 1), c08e(0, 1, 1)] + [job("H_C04_stream_md", conc=True, reach=["checked"], mode=m, herr=h) for m in (0, 1, 2) for h in (0, 1)] + [job("H_C04_request_md", reach=["checked"], deadline=0), job("H_C04_request_md", reach=["checked"], deadline=1), job("H_C04_roundtrip", reach=["checked"], K=2, V=2, vlen=2), job("H_C04_roundtrip", reach=["checked"], K=1, V=1, vlen=3, allbin=1),
               job("H_C04_roundtrip", reach=["checked"], K=3, V=1, vlen=3), job("H_C04_roundtrip", reach=["checked"], K=2, V=2, vlen=3, allbin=1), job("H_C04_join", reach=["checked"])],
 }
@@ -109,13 +109,13 @@ P["C05"] = {
  "title": "multiplexed calls are isolated: unique ids, envelopes reach only their owner",
  "bounds": "inductive id step from an arbitrary 64-bit counter (any history shorter than 2^64); dispatch from a registry of two symbolic distinct ids with a symbolic envelope id; n concurrently starting callers (2 quick / 3 thorough), all interleavings; two concurrent calls (stream + unary) with every merge of their response sequences (stream bodies <= 2 / 3)",
  "assumptions": GEN_ASSUME,
- "quick": [job("H_C05_ids", conc=True, reach=["checked"], soft=["counter-inspected"]), job("H_C05_dispatch", reach=["to-a", "to-b", "dropped"]), job("H_C05_concurrent_ids", conc=True, reach=["checked"], n=2),
+ "quick": [job("H_C05_ids", conc=True, reach=["checked"], soft=["counter-inspected"]), job("H_C05_failed_write", conc=True, reach=["checked"]), job("H_C05_blocked_write", conc=True, reach=["checked"]), job("H_C05_dispatch", reach=["to-a", "to-b", "dropped"]), job("H_C05_concurrent_ids", conc=True, reach=["checked"], n=2),
            job("H_C05_concurrent_ids", conc=True, reach=["checked"], n=3), job("H_C05_merge", conc=True, reach=["checked"], bodies=2),
            job("H_C05_concurrent_ids", conc=True, reach=["checked"], n=1, streams=1), job("H_C05_concurrent_ids", conc=True, reach=["checked"], n=2, streams=1),
            job("H_C02_stream", conc=True, reach=["checked"], cp=0, hp=0, msgs=1), job("H_C01_direct", conc=True, reach=["quiescent"], callers=2),
            job("H_C11_server_abandon", conc=True, reach=["checked"], n=3, k=1),
            dict(job("H_C05_concurrent_ids", conc=True, n=1, streams=1), race=True), dict(job("H_C05_concurrent_ids", conc=True, n=2, streams=0), race=True)],
- "thorough": [job("H_C05_ids", conc=True, reach=["checked"], soft=["counter-inspected"]), job("H_C05_dispatch", reach=["to-a", "to-b", "dropped"]), job("H_C05_concurrent_ids", conc=True, reach=["checked"], n=3),
+ "thorough": [job("H_C05_ids", conc=True, reach=["checked"], soft=["counter-inspected"]), job("H_C05_failed_write", conc=True, reach=["checked"]), job("H_C05_blocked_write", conc=True, reach=["checked"]), job("H_C05_dispatch", reach=["to-a", "to-b", "dropped"]), job("H_C05_concurrent_ids", conc=True, reach=["checked"], n=3),
            job("H_C05_merge", conc=True, reach=["checked"], bodies=3), job("H_C01_direct", conc=True, reach=["quiescent"], callers=2),
            job("H_C05_concurrent_ids", conc=True, reach=["checked"], n=2, streams=2),
            dict(job("H_C05_concurrent_ids", conc=True, n=2, streams=1), race=True)],
@@ -123,7 +123,7 @@ P["C05"] = {
 
 # ---------------------------------------------------------------- C06
 def c06(**kw): return job("H_C06_wire", conc=True, reach=["checked"], **kw)
-c06q = [c06(kind=0, herr=0, hdrmode=1), c06(kind=0, herr=1), c06(kind=1, cp=0, hp=0, msgs=1, hdrmode=1), c06(kind=1, cp=0, hp=0, msgs=1, hdrmode=2),
+c06q = [c06(kind=1, cp=0, hp=0, msgs=1, herr=h, tcap=1) for h in (2, 3, 4)] + [c06(kind=0, herr=0, hdrmode=1), c06(kind=0, herr=1), c06(kind=1, cp=0, hp=0, msgs=1, hdrmode=1), c06(kind=1, cp=0, hp=0, msgs=1, hdrmode=2),
         c06(kind=1, cp=2, hp=1, msgs=1, herr=1, hdrmode=3), c06(kind=1, cp=0, hp=3, msgs=2), c06(kind=1, cp=2, hp=0, msgs=1, cancel=1, tcap=1), c06(kind=0, cancel=1),
         c06(kind=1, cp=0, hp=0, msgs=1, wfail=2, tcap=1), c06(kind=1, cp=0, hp=0, msgs=1, badmsg=1, tcap=1),
         c06(kind=1, cp=0, hp=3, msgs=2, zero=1, tcap=2), c06(kind=1, cp=0, hp=0, msgs=1, zero=1)]
@@ -150,10 +150,10 @@ P["C07"] = {
 
 # ---------------------------------------------------------------- C10
 def c10(**kw): return job("H_C10_end", conc=True, reach=["checked"], **kw)
-c10q = [c10(u=1, s=0, fault=f) for f in (0, 1, 2)] + [c10(u=0, s=1, fault=f, hmode=h) for f in (0, 2) for h in (0, 1, 2)] + [c10(u=0, s=1, fault=1, hmode=2), c10(u=1, s=1, fault=0, hmode=0)] + [c10(u=0, s=1, fault=f, hmode=1, rst=1) for f in (0, 2)]
+c10q = [c10(u=1, s=0, fault=f) for f in (0, 1, 2)] + [c10(u=0, s=1, fault=f, hmode=h) for f in (0, 2) for h in (0, 1, 2)] + [c10(u=0, s=1, fault=1, hmode=2), c10(u=1, s=1, fault=0, hmode=0)] + [c10(u=0, s=1, fault=f, hmode=1, rst=1) for f in (0, 2)] + [c10(u=1, s=0, fault=f, orphan=2) for f in (0, 1, 2)]
 P["C10"] = {
  "title": "server connections end cleanly: Serve returns, handlers cancelled, no leaks",
- "bounds": "u unary + s streaming cooperative handlers in flight (u,s <= 1 quick; thorough up to (2,1),(1,2)); fault = read error / write error / Server.Stop, racing with the request script and the handlers (every position); streaming handlers blocked in RecvMsg, on their context, or sending; all interleavings; goroutine census at quiescence",
+ "bounds": "u unary + s streaming cooperative handlers in flight (u,s <= 1 quick; thorough up to (2,1),(1,2)); fault = read error / write error / Server.Stop, racing with the request script and the handlers (every position); streaming handlers blocked in RecvMsg, on their context, or sending; optionally two stray bodies for never-opened streams first (each refused with a reset of the server's own); all interleavings; goroutine census at quiescence",
  "assumptions": GEN_ASSUME + ["handlers are cooperative: they return once their context is done"],
  "quick": c10q,
  "thorough": c10q + [c10(u=1, s=1, fault=2, hmode=2), c10(u=2, s=0, fault=0), c10(u=2, s=0, fault=2), c10(u=0, s=2, fault=0, hmode=0)],
@@ -187,12 +187,13 @@ P["C12"] = {
 # ---------------------------------------------------------------- C13
 P["C13"] = {
  "title": "no envelope sequence from a peer can crash a client or leave a call hanging",
- "bounds": "two outstanding calls (unary+unary, unary+stream, stream+stream), with and without a stats handler; every sequence of L response envelopes over 12 shapes addressed to call 1, call 2 or an unknown id, then the connection closes; L = 1..2 (quick), 3 for unary+unary (thorough); all interleavings",
+ "bounds": "two outstanding calls (unary+unary, unary+stream, stream+stream), with and without a stats handler; every sequence of L response envelopes over 12 shapes addressed to call 1, call 2 or an unknown id, then the connection closes (and, H_C11_client_cancel_unread: m bodies that nobody receives followed by the caller's cancellation); L = 1..2 (quick), 3 for unary+unary (thorough); all interleavings",
  "assumptions": GEN_ASSUME,
  "quick": [job("H_C13_seq", conc=True, reach=["checked"], L=1, mode=m, stats=s) for m in (0, 1, 2) for s in (0, 1)] +
           [job("H_C13_seq", conc=True, reach=["checked"], L=2, mode=0, stats=1, first=f) for f in range(12)] +
-          [job("H_C13_seq", conc=True, reach=["checked"], L=3, mode=m, stats=0, preset=1) for m in (0, 1)],
- "thorough": [job("H_C13_seq", conc=True, reach=["checked"], L=4, mode=0, stats=0, preset=1)] + [job("H_C13_seq", conc=True, reach=["checked"], L=1, mode=m, stats=s) for m in (0, 1, 2) for s in (0, 1)] +
+          [job("H_C13_seq", conc=True, reach=["checked"], L=3, mode=m, stats=0, preset=1) for m in (0, 1)] +
+          [job("H_C11_client_cancel_unread", conc=True, reach=["checked"], m=m) for m in (1, 3)],  # bodies nobody receives, then the caller gives up: the call must still end
+ "thorough": [job("H_C11_client_cancel_unread", conc=True, reach=["checked"], m=m) for m in (1, 3)] + [job("H_C13_seq", conc=True, reach=["checked"], L=4, mode=0, stats=0, preset=1)] + [job("H_C13_seq", conc=True, reach=["checked"], L=1, mode=m, stats=s) for m in (0, 1, 2) for s in (0, 1)] +
           [job("H_C13_seq", conc=True, reach=["checked"], L=2, mode=m, stats=1, first=f) for f in range(12) for m in (0, 1)] +
           [job("H_C13_seq", conc=True, reach=["checked"], L=3, mode=0, stats=0, first=f) for f in range(12)],
 }
@@ -214,11 +215,12 @@ c16q = [job("H_C16_forward", reach=["forwarded"], peers=p, ic=ic, next=nx, rec=r
        [job("H_C16_forward", reach=["rejected"], peers=2, ic=2), job("H_C16_forward", peers=2, ic=0, fill=16)] + \
        [job("H_C17_conc", conc=True, reach=["checked"], scenario=2, n=3), job("H_C17_conc", conc=True, reach=["checked"], scenario=1, n=1), job("H_C17_conc", conc=True, reach=["checked"], scenario=5)] + \
        [job("H_C16_e2e", conc=True, reach=["forwarded", "dialled"], peers=p, ic=ic, next=nx, rec=rc, n=n) for (p, ic, nx, rc, n) in ((2, 0, 0, 0, 2), (3, 1, 2, 2, 2), (2, 0, -1, 0, 2), (3, 0, 1, 2, 1), (2, 1, 0, 0, 1))] + \
-       [job("H_C16_e2e", conc=True, reach=["rejected"], peers=2, ic=2, n=1)]
-c16t = c16q + [job("H_C16_e2e", conc=True, reach=["forwarded", "dialled"], peers=3, ic=ic, next=nx, rec=2, n=3) for ic in (0, 1) for nx in (0, 1, 2)]
+       [job("H_C16_e2e", conc=True, reach=["rejected"], peers=2, ic=2, n=1)] + \
+       [job("H_C16_burst", conc=True, reach=["checked"], n=n) for n in (5, 19)]
+c16t = c16q + [job("H_C16_burst", conc=True, reach=["checked"], n=22)] + [job("H_C16_e2e", conc=True, reach=["forwarded", "dialled"], peers=3, ic=ic, next=nx, rec=2, n=3) for ic in (0, 1) for nx in (0, 1, 2)]
 P["C16"] = {
  "title": "a proxy delivers each accepted envelope once, in order, to the right peer",
- "bounds": "one forwarding step from a proxy state with 2..3 attached peers and symbolic queue fill 0/15/16 of 16, for an accepted envelope with symbolic destination / interceptor rewrite / return route of 0..2 hops (nil and empty) / route record of 0..2 entries, symbolic id and payload; per-pair ordering with a stuck third peer (3 envelopes, all interleavings); through the exported API only (H_C16_e2e): a running proxy with 2..3 attached peers, 1..2 (thorough 3) envelopes from one peer to a symbolic destination incl. dial-on-demand that succeeds, every schedule",
+ "bounds": "one forwarding step from a proxy state with 2..3 attached peers and symbolic queue fill 0/15/16 of 16, for an accepted envelope with symbolic destination / interceptor rewrite / return route of 0..2 hops (nil and empty) / route record of 0..2 entries, symbolic id and payload; per-pair ordering with a stuck third peer (3 envelopes, all interleavings); through the exported API only (H_C16_e2e): a running proxy with 2..3 attached peers, 1..2 (thorough 3) envelopes from one peer to a symbolic destination incl. dial-on-demand that succeeds, every schedule; a burst of 5 / 19 (thorough 22) envelopes to a peer that accepts nothing until the burst is over: order and at-most-once of what arrives",
  "assumptions": GEN_ASSUME + ["end-to-end RPCs through a proxy (client - proxy - Demux - Serve) are not part of the registered bound"],
  "quick": c16q, "thorough": c16t,
 }
@@ -260,6 +262,7 @@ P["C19"] = {
 c20q = [job("H_C20_unary_chain", reach=["checked"], n=n) for n in (1, 2, 3, 4)] + [job("H_C20_unary_chain", reach=["checked"], n=3, short=s) for s in (0, 1, 2)] + \
        [job("H_C20_stream_chain", reach=["checked"], n=n) for n in (1, 2, 3, 4)] + \
        [job("H_C20_stats_e2e", conc=True, reach=["checked"], H=h, kind=k, outcome=o) for h in (1, 2) for k in (0, 1) for o in (0, 1)] + \
+       [job("H_C20_stats_e2e", conc=True, reach=["checked"], H=1, kind=1, outcome=o, late=1) for o in (0, 1)] + \
        [job("H_C20_stats_failures", conc=True, reach=["checked"], H=2, outcome=o) for o in (0, 1, 2, 3)]
 P["C20"] = {
  "title": "interceptors and stats handlers see every RPC exactly once, in order",
